@@ -3,11 +3,13 @@ from __future__ import annotations
 
 import io
 import random
+import signal as _signal
+import threading as _threading
 import time
 import warnings
 
 from harness.common import Ck, coq_bool, coq_list, parse_coq_N_list
-from translate import c01_kvloop, c01_kvser, c02_tables
+from translate import c01_kvaux, c01_kvloop, c01_kvser, c02_tables
 
 MANIFEST = dict(
     technique='Rocq proof (character-level KV lexer proved equal to the reader-program tokenizer model of C03 under the '
@@ -60,7 +62,29 @@ MANIFEST = dict(
          'the matcher must index a table whose runtime value agrees with the ESCAPES literal; a fast path must look for '
          'every escaped character (obligation). The Tokenizer options in effect in parse (keyword-only defaults of '
          'Tokenizer.__init__ overridden by the call) are an obligation. KV/KvFlags.v read_flag is compared with _read_flag '
-         'directly (correspondence:read_flag).',
+         'directly (correspondence:read_flag). '
+         'Round 4: the public wrapper serialise() is executed symbolically into its execution paths (which buffer / file '
+         'every _serialise call and write goes to, what getvalue() reads, what is returned): gen_serpaths; delivery_ok '
+         '(every path hands the writes of one _serialise call, given the caller\'s start_indent, to the destination '
+         'unprocessed and returns the text / None; a path for every way of calling) is discharged in the kernel, and '
+         'serialise_delivery / serialise_file_and_returned_text_agree prove that for such paths the text reaching the '
+         'file or the returned string is the writer model\'s text (a pass over the finished text such as '
+         'textwrap.indent is rejected, with a computed witness). _read_flag is executed symbolically into a decision '
+         'tree gen_flagprog; read_flag_program_is_model proves that every tree accepted by flagprog_ok computes '
+         'read_flag of KV/KvFlags.v for all arguments / mappings / casefold functions. _serialise is also read as a '
+         'program of write / child-loop / store / mutating-call instructions gen_wprog: '
+         'writer_program_leaves_tree_unchanged (no store instruction => the tree comes back unchanged whatever a '
+         'store would do) and writer_program_writes_model_text. Predicate methods of the object (is_root(), '
+         'has_children()) are inlined where the writers test them. c01_property states the whole property once, with '
+         'its nine hypotheses (all decidable conditions on regenerated objects) visible; '
+         'c01_property_hypotheses_satisfiable and the obligation all_nine_hypotheses_... discharge them for the '
+         'reference and for the regenerated objects. allow_escapes=False: the C03 tokenizer model with the option off '
+         'is compared with Keyvalues.parse in correspondence:parse-chunked; computed witnesses that the round trip '
+         'fails under it; an oracle for trees that need no escaping. KV/KvShift.v: for write templates that are '
+         'sequences of writer lines (lines_ok over the generated templates: exactly one cur_indent at the start of each '
+         'line, a literal LF at its end, no LF in between) the text written at cur_indent c is the text written at the empty '
+         'cur_indent with c put in front of every LF-terminated line (ser_node_is_shift_of_unindented, '
+         'serialise_start_indent_shifts_writer_lines): the indent can never land inside a quoted string.',
     note='Trusted: Coq kernel + vm_compute, translate/c01_kvser.py (incl. re._parser for the character set of the '
          'escape patterns; checked per character against escape_text), translate/c01_kvloop.py (the symbolic reading of '
          'the loop body: alias tracking of four variables, classification of error messages by prefix) and '
@@ -69,19 +93,66 @@ MANIFEST = dict(
          'tree under that meaning, and both are still compared with Keyvalues.parse by the exhaustive token-level and '
          'sampled text-level correspondences --, the C03 '
          'tokenizer model Text/Tokenizer.v (tied by C03\'s exhaustive small-scope correspondence; KV/KvLex.v is no longer '
-         'trusted: it is proved equal to it), CPython. _read_flag is not modelled: its verdicts enter as an arbitrary '
-         'predicate (theorems hold for all of them; correspondences record the real verdicts). allow_escapes=False, '
-         'escape_text(multiline=True) (no KV1 writer uses it), trees with a nameless node below the root, non-str '
-         'values, cyclic trees and the Cython tokenizer twin are outside the model. "Serialisation never changes the '
-         'tree" is a syntactic census (no store / mutating call on tree objects in the writers) plus the identity walk of '
-         'the search, not a semantic theorem. serialise(file) versus the returned string is searched only.',
+         'trusted: it is proved equal to it), CPython, translate/c01_kvaux.py (symbolic reading of _read_flag; the readings of serialise() and of the statement '
+         'list of _serialise live in translate/c01_kvser.py). The round-trip theorems hold for an arbitrary flag '
+         'predicate; c01_property instantiates it with the regenerated _read_flag. allow_escapes=False has no general '
+         'theorem (sampled correspondence + witnesses). escape_text(multiline=True) (no KV1 writer uses it), trees with '
+         'a nameless node below the root (the format cannot carry them: they are flattened into the parent), non-str '
+         'values (escape_text raises), cyclic trees and the Cython tokenizer twin are outside the model. '
+         '"Serialisation never changes the tree" for the deprecated export() is still the syntactic census plus the '
+         'identity walk of the search; for serialise()/_serialise it is the theorem about gen_wprog (the store '
+         'instruction is any statement that assigns to / deletes an attribute or item of a tree object or calls a '
+         'mutating method on one; method calls taken as pure must be one-line pure predicates of the class).',
 )
+
+# ------------------------------------------------------------------------------------------------ calls into the implementation
+# A fault can make the implementation loop or raise something unexpected: every call into it that depends on generated
+# input runs under an alarm, and both outcomes are turned into results (a failing input), never into a hung or crashed check.
+# A call takes well under a millisecond; the limit is four to five orders of magnitude above that, so load cannot trip it.
+IMPL_TIME_LIMIT = 20.0
+UNVERIFIED = [False]      # set when a call was answered 'hang' without being made
+MAX_HANGS = 3      # after that many, the implementation is not called any more: every call answers 'hang' at once
+HANGS = [0]       # calls that hit the limit (shrinking stops at the first one: every further probe would cost the limit again)
+
+
+_MAIN_THREAD = _threading.main_thread()
+
+
+class ImplTimeout(BaseException):
+    """Raised by the alarm inside a call into the implementation (BaseException: `except Exception` cannot swallow it)."""
+
+
+def _on_alarm(signum, frame):
+    HANGS[0] += 1
+    raise ImplTimeout()
+
+
+_ARMED = [False]
+
+
+def guarded(fn, *a, **kw):
+    """fn(*a, **kw) under the alarm (main thread only; the handler is installed once, a call costs two setitimer calls)."""
+    if _threading.current_thread() is not _MAIN_THREAD:
+        return fn(*a, **kw)
+    if HANGS[0] >= MAX_HANGS:
+        UNVERIFIED[0] = True
+        raise ImplTimeout()
+    if not _ARMED[0]:
+        _signal.signal(_signal.SIGALRM, _on_alarm)
+        _ARMED[0] = True
+    _signal.setitimer(_signal.ITIMER_REAL, IMPL_TIME_LIMIT)
+    try:
+        return fn(*a, **kw)
+    finally:
+        _signal.setitimer(_signal.ITIMER_REAL, 0)
+
 
 IMPORTS = ['Coq.Lists.List', 'Coq.NArith.NArith', 'Coq.Bool.Bool', 'SV.KV.KvBase', 'SV.KV.KvLex', 'SV.KV.KvParse',
            'SV.KV.KvSer', 'SV.KV.KvSym', 'SV.KV.KvExport', 'SV.KV.KvEnum', 'SV.KV.KvFlags', 'SV.Gen.KVSer_gen']
 IMPORTS_LOOP = ['Coq.Lists.List', 'Coq.NArith.NArith', 'Coq.Bool.Bool', 'SV.KV.KvBase', 'SV.KV.KvLex', 'SV.KV.KvParse',
                 'SV.KV.KvLoop', 'SV.KV.KvLoopRef', 'SV.KV.KvLoopEquiv', 'SV.KV.KvLoopRoundtrip', 'SV.KV.KvEnum', 'SV.KV.KvLoopEnum',
                 'SV.Gen.KVSer_gen', 'SV.Gen.KVLoop_gen']
+IMPORTS_AUX = ['SV.KV.KvWriter', 'SV.KV.KvFlagProg', 'SV.KV.KvWProg', 'SV.KV.KvShift', 'SV.Gen.KVAux_gen']
 IMPORTS_REFINE = ['Coq.Lists.List', 'Coq.NArith.NArith', 'Coq.Bool.Bool', 'SV.Text.Str', 'SV.Text.Prog', 'SV.Text.Tokenizer',
                   'SV.Text.TokGen', 'SV.KV.KvBase', 'SV.KV.KvLex', 'SV.KV.KvParse', 'SV.KV.KvRefine', 'SV.Gen.KVSer_gen']
 PRE = '''Import ListNotations. Open Scope N_scope.
@@ -129,7 +200,8 @@ ERR_NAMES = {1: 'flag-newline', 2: 'flag-nest', 3: 'flag-eof', 4: 'paren-nest', 
              7: 'close-paren', 8: 'star-comment', 9: 'single-slash', 10: 'no-escape-char', 11: 'unterminated-string',
              12: 'unexpected-char', 20: 'block-after-value', 21: 'block-required', 22: 'newline-in-key',
              23: 'expected-newline', 24: 'multiple-names', 25: 'too-many-close', 26: 'unexpected-token',
-             27: 'eof-block-required', 28: 'eof-open-blocks', 29: 'index-error', 30: 'newline-in-value', 99: 'other'}
+             27: 'eof-block-required', 28: 'eof-open-blocks', 29: 'index-error', 30: 'newline-in-value',
+             97: 'unexpected-exception', 98: 'hang', 99: 'other'}
 
 # Keyvalues.parse options covered by the model, as bits of the number handed to Coq (mkopts in PRE)
 OPT_NAMES = ['newline_keys', 'newline_values', 'single_line', 'single_block']
@@ -274,7 +346,7 @@ def impl_parse(data, flag_log: dict | None = None, popts: dict | None = None, fl
             kw = dict(popts or {})
             if flags is not None:
                 kw['flags'] = flags
-            root = kvmod.Keyvalues.parse(data, **kw)
+            root = guarded(kvmod.Keyvalues.parse, data, **kw)
             if root._real_name is not None:
                 return ('node', snapshot(root))
             return ('ok', snapshot(root)[2])
@@ -285,6 +357,10 @@ def impl_parse(data, flag_log: dict | None = None, popts: dict | None = None, fl
         return ('err', 99, e.mess[:80])
     except IndexError as e:
         return ('err', 29, f'IndexError: {e}')
+    except ImplTimeout:
+        return ('err', 98, f'no result after {IMPL_TIME_LIMIT:.0f} s')
+    except Exception as e:      # noqa: BLE001   anything else a fault makes parse raise is a result, not a crash of the check
+        return ('err', 97, f'{type(e).__name__}: {e}'[:80])
     finally:
         kvmod._read_flag = orig
 
@@ -296,24 +372,71 @@ OPTS_ODD = [dict(indent='x', indent_braces=True, start_indent=''), dict(indent='
             dict(indent='\t', indent_braces=True, start_indent='{'), dict(indent='\r', indent_braces=False, start_indent='')]
 
 
-def impl_serialise(doc, opts, named: bool = False) -> str:
-    with warnings.catch_warnings():
-        warnings.simplefilter('ignore')
-        kv = build(doc[0]) if named else build_root(doc)
-        return kv.serialise(**opts)
+def write_text(kv, opts: dict, writer: str = 'serialise'):
+    """(text, '') or (None, how the writer failed): serialise(**opts) / ''.join(export()) under the alarm."""
+    try:
+        with warnings.catch_warnings():
+            warnings.simplefilter('ignore')
+            if writer == 'serialise':
+                text = guarded(kv.serialise, **opts)
+            else:
+                text = guarded(lambda: ''.join(kv.export()))
+    except ImplTimeout:
+        return None, 'hang'
+    except Exception as e:      # noqa: BLE001   the writers must not raise on legal trees
+        return None, type(e).__name__
+    if not isinstance(text, str):
+        return None, 'returned-' + type(text).__name__
+    return text, ''
+
+
+def impl_serialise(doc, opts, named: bool = False, writer: str = 'serialise') -> str:
+    """The text, or a marker no model text can equal when the writer failed (the correspondence then disagrees and the
+    search reports the failing input)."""
+    kv = build(doc[0]) if named else build_root(doc)
+    text, err = write_text(kv, opts, writer)
+    return text if text is not None else '\x00\x00writer failed: ' + err
 
 
 # ------------------------------------------------------------------------------------------------ parallel model evaluation
+def par_map(fn, items: list, workers: int) -> list:
+    """[fn(x) for x in items] on `workers` plain threads (results in the order of the items; an exception in fn is re-raised
+    here).  Not concurrent.futures: its executors share a module-level lock that is also taken around every fork, and the
+    harness forks (coqc with a preexec_fn) from several threads -- `RuntimeError: release unlocked lock` was seen once."""
+    out: list = [None] * len(items)
+    errs: list = []
+    nxt = [0]
+    lock = _threading.Lock()
+
+    def work():
+        while True:
+            with lock:
+                k = nxt[0]
+                nxt[0] += 1
+            if k >= len(items):
+                return
+            try:
+                out[k] = fn(items[k])
+            except BaseException as e:      # noqa: BLE001
+                errs.append(e)
+                return
+    ths = [_threading.Thread(target=work) for _ in range(max(1, min(workers, len(items))))]
+    for t in ths:
+        t.start()
+    for t in ths:
+        t.join()
+    if errs:
+        raise errs[0]
+    return out
+
+
 def eval_jobs(ck: Ck, jobs: list) -> list:
     """Evaluate [(name, expr)] with ck.coq_eval in parallel coqc processes (distinct scratch names); the order of the
     results is the order of the jobs, so nothing depends on timing."""
-    from concurrent.futures import ThreadPoolExecutor
     if not jobs:
         return []
-    with ThreadPoolExecutor(max_workers=min(8, len(jobs))) as ex:
-        futs = [ex.submit(ck.coq_eval, IMPORTS, exprs if isinstance(exprs, list) else [exprs], f'{name}_{k}', 900, PRE)
-                for k, (name, exprs) in enumerate(jobs)]
-        return [f.result() for f in futs]
+    return par_map(lambda kj: ck.coq_eval(IMPORTS + IMPORTS_AUX, kj[1][1] if isinstance(kj[1][1], list) else [kj[1][1]],
+                                          f'{kj[1][0]}_{kj[0]}', 900, PRE), list(enumerate(jobs)), 12)
 
 
 # ------------------------------------------------------------------------------------------------ correspondence: serialise
@@ -328,9 +451,7 @@ def corr_serialise(ck: Ck):
         if named:
             doc = doc[:1]
         text = impl_serialise(doc, opts, named)
-        with warnings.catch_warnings():
-            warnings.simplefilter('ignore')
-            xtext = ''.join((build(doc[0]) if named else build_root(doc)).export())
+        xtext = impl_serialise(doc, {}, named, 'export')
         cases.append((doc, opts, named, text, xtext))
         ck.count('serialise_correspondence_cases')
         nodes, depth, special = tree_stats(doc)
@@ -583,19 +704,34 @@ def corr_read_flag(ck: Ck, shape_recognised: bool):
             f'(([{"; ".join(f"({coq_chars(k)}, {coq_bool(bool(v))})" for k, v in cases[i][0].items())}], '
             f'[{"; ".join(f"({coq_chars(a)}, {coq_chars(b)})" for a, b in cases[i][1].items())}]), '
             f'({coq_chars(cases[i][2])}, {coq_bool(cases[i][3])}))' for i in part)
-        jobs.append(('read_flag', f'bad_idx (fun c : (list (str * bool) * list (str * str)) * (str * bool) => '
-                                  f'Bool.eqb (read_flag (cf_tbl (snd (fst c))) (fst (fst c)) {run_defaults()} (fst (snd c))) '
-                                  f'(snd (snd c))) 0 {lit}'))
+        # the hand model read_flag, and the decision tree regenerated from the source of _read_flag under eval_ftree
+        jobs.append(('read_flag', [
+            f'bad_idx (fun c : (list (str * bool) * list (str * str)) * (str * bool) => '
+            f'Bool.eqb (read_flag (cf_tbl (snd (fst c))) (fst (fst c)) {run_defaults()} (fst (snd c))) '
+            f'(snd (snd c))) 0 {lit}',
+            f'bad_idx (fun c : (list (str * bool) * list (str * str)) * (str * bool) => '
+            f'match eval_ftree (cf_tbl (snd (fst c))) (fst (fst c)) {run_defaults()} (fst (snd c)) gen_flagprog with '
+            f'Some b => Bool.eqb b (snd (snd c)) | None => false end) 0 {lit}']))
         parts.append(part)
 
     def finish(results) -> None:
         bad: list[int] = []
+        gbad: list[int] = []
         for part, vals in zip(parts, results):
             if vals is None:
                 ck.obligation('correspondence:read_flag', False, 'model could not be evaluated')
                 ck.tie_broken.append('correspondence read_flag: model evaluation failed')
                 return
             bad.extend(part[i] for i in parse_coq_N_list(vals[0]))
+            gbad.extend(part[i] for i in parse_coq_N_list(vals[1]))
+        ck.obligation('correspondence:read_flag-regenerated-program', not gbad,
+                      f'{len(cases)} (mapping, flag text) pairs, gen_flagprog under eval_ftree (vm_compute) vs _read_flag: '
+                      f'{len(gbad)} disagreements')
+        if gbad:
+            m, cf, t, want = min((cases[i] for i in gbad), key=lambda c: (len(c[2]), len(c[0])))
+            ck.tie_broken.append('correspondence read_flag-regenerated-program (Gen/KVAux_gen.v gen_flagprog vs _read_flag)')
+            ck.extra['read_flag_program_disagreement'] = {'flags': {k: repr(v) for k, v in m.items()}, 'flag_text': t,
+                                                          'impl': want, 'n': len(gbad)}
         ck.obligation('correspondence:read_flag', not bad,
                       f'{len(cases)} (mapping, flag text) pairs, KV/KvFlags.v read_flag (vm_compute) vs _read_flag: '
                       f'{len(bad)} disagreements' + ('' if shape_recognised else
@@ -623,7 +759,9 @@ Definition flag_tbl (t : list (KvBase.str * bool)) (s : KvBase.str) : bool := ex
 Definition chunk_case (c : ((list (list N) * N) * list (KvBase.str * bool)) * ((list kv + kv) + N)) : bool :=
   let cs := fst (fst (fst c)) in
   let n := (length (concat cs) + 2)%nat in
-  agree (parse_kv_reader gen_parsecfg (mkopts (snd (fst (fst c)))) gen_tables (flag_tbl (snd (fst c))) n n (chk_of_chunks cs))
+  let b := snd (fst (fst c)) in       (* option bits; + 16: allow_escapes=False *)
+  agree ((if b <? 16 then parse_kv_reader else parse_kv_reader_noesc)
+           gen_parsecfg (mkopts (b mod 16)) gen_tables (flag_tbl (snd (fst c))) n n (chk_of_chunks cs))
         (snd c).
 '''
 
@@ -641,10 +779,15 @@ def corr_chunked(ck: Ck) -> None:
         name, chunks = forms[i % len(forms)]
         bits = DEFAULT_OPT_BITS if rng.random() < 0.6 else rng.randrange(16)
         flags: dict = {}
-        res = impl_parse(list(chunks), flags, bits_opts(bits))
+        # a quarter of the cases with allow_escapes=False (the tokenizer model with the option off: KV/KvNoEsc.v)
+        noesc = i % 4 == 3
+        res = impl_parse(list(chunks), flags, dict(bits_opts(bits), allow_escapes=False) if noesc else bits_opts(bits))
+        if noesc:
+            bits += 16
         cases.append((chunks, bits, flags, res))
         ck.count('chunked_correspondence_cases')
         ck.hist('chunked_corr_form', name)
+        ck.hist('chunked_corr_allow_escapes', not noesc)
         if len(text) >= 4 and len(chunks) >= 2:
             ck.seen(('chunked', tuple(chunks), bits))
 
@@ -657,19 +800,21 @@ def corr_chunked(ck: Ck) -> None:
     lit = coq_list(
         f'((([{"; ".join(coq_chars(ch) for ch in c[0])}], {c[1]}), '
         f'[{"; ".join(f"({coq_chars(f)}, {coq_bool(v)})" for f, v in c[2].items())}]), {want(c[3])})' for c in cases)
-    vals = ck.coq_eval(IMPORTS_REFINE + ['SV.KV.KvEnum'], [f'bad_idx chunk_case 0 {lit}'], name='chunked', preamble=PRE_CHUNK)
+    vals = ck.coq_eval(IMPORTS_REFINE + ['SV.KV.KvEnum', 'SV.KV.KvNoEsc'], [f'bad_idx chunk_case 0 {lit}'], name='chunked',
+                       preamble=PRE_CHUNK)
     if vals is None:
         ck.obligation('correspondence:parse-chunked', False, 'model could not be evaluated')
         ck.tie_broken.append('correspondence parse-chunked: model evaluation failed')
         return
     bad = parse_coq_N_list(vals[0])
     ck.obligation('correspondence:parse-chunked', not bad,
-                  f'{len(cases)} chunk lists, parse_kv_reader over Text/Tokenizer.v + gen_tables (vm_compute) vs '
-                  f'Keyvalues.parse(chunks): {len(bad)} disagreements')
+                  f'{len(cases)} chunk lists (a quarter with allow_escapes=False), parse_kv_reader / parse_kv_reader_noesc over '
+                  f'Text/Tokenizer.v + gen_tables (vm_compute) vs Keyvalues.parse(chunks): {len(bad)} disagreements')
     if bad:
         c = min((cases[i] for i in bad), key=lambda c: sum(map(len, c[0])))
         ck.tie_broken.append('correspondence parse-chunked (Text/Tokenizer.v reader model + KV/KvParse.v vs Keyvalues.parse)')
-        ck.extra['chunked_disagreement'] = {'chunks': c[0], 'options': bits_opts(c[1]), 'flags': c[2], 'impl': c[3]}
+        ck.extra['chunked_disagreement'] = {'chunks': c[0], 'options': dict(bits_opts(c[1] % 16), allow_escapes=c[1] < 16),
+                                            'flags': c[2], 'impl': c[3]}
 
 
 # ------------------------------------------------------------------------------------------------ exhaustive token-level tie
@@ -911,7 +1056,11 @@ def tie_tables(ck: Ck, side: dict) -> None:
     for cp in list(range(hi)) + [0xd800, 0xdfff, 0xfeff, 0x1f600, 0x10ffff]:
         c = chr(cp)
         want = c if (c in excl or c not in inv) else '\\' + inv[c]
-        if tokenizer.escape_text(c) != want:
+        try:
+            got = guarded(tokenizer.escape_text, c)
+        except (ImplTimeout, Exception):       # noqa: BLE001
+            got = None
+        if got != want:
             bad.append(cp)
     ck.count('escape_text_single_chars', hi + 5)
     ck.obligation('tie:escape_text on every single character equals the table model', not bad,
@@ -947,9 +1096,13 @@ def strip_blanks_outside_quotes(text: str) -> str:
 def tokens_of(text: str):
     from srctools.tokenizer import Tokenizer, TokenSyntaxError
     try:
-        return [(t.name, v) for t, v in Tokenizer(text, string_bracket=True)]
+        return guarded(lambda: [(t.name, v) for t, v in Tokenizer(text, string_bracket=True)])
     except TokenSyntaxError as e:
         return ('error', e.mess[:60])
+    except ImplTimeout:
+        return ('error', 'hang')
+    except Exception as e:      # noqa: BLE001
+        return ('error', type(e).__name__)
 
 
 def chunkings(rng: random.Random, text: str):
@@ -1053,13 +1206,9 @@ def fail_key(kind: str, small, cls: str) -> str:
 
 def roundtrip_fails(doc, opts, writer: str = 'serialise'):
     """'' if parse(write(doc)) == doc, else a description class."""
-    try:
-        with warnings.catch_warnings():
-            warnings.simplefilter('ignore')
-            root = build_root(doc)
-            text = root.serialise(**opts) if writer == 'serialise' else ''.join(root.export())
-    except Exception as e:     # the writers must not raise on legal trees
-        return f'writer-raised:{type(e).__name__}'
+    text, err = write_text(build_root(doc), opts, writer)
+    if text is None:
+        return f'writer-raised:{err}'
     got = impl_parse(text)
     if got[0] == 'ok':
         return where_differs(doc, got[1])
@@ -1084,12 +1233,17 @@ def shrink_doc(doc, pred):
                 for k in range(len(t[2])):
                     yield d[:i] + [('L', t[1], t[2][:k] + t[2][k + 1:])] + d[i + 1:]
     cur = doc
+    hangs = HANGS[0]
     for _ in range(400):
         for v in variants(cur):
             if pred(v):
                 cur = v
                 break
+            if HANGS[0] != hangs:
+                return cur
         else:
+            return cur
+        if HANGS[0] != hangs:
             return cur
     return cur
 
@@ -1102,17 +1256,30 @@ def map_strings(doc, fname, fvalue):
     return [go(t) for t in doc]
 
 
+def all_strings_unescaped(doc) -> bool:
+    from srctools.tokenizer import escape_text
+
+    def ok(t) -> bool:
+        try:
+            if guarded(escape_text, t[1]) != t[1] or (t[0] == 'L' and guarded(escape_text, t[2]) != t[2]):
+                return False
+        except (ImplTimeout, Exception):       # noqa: BLE001
+            return False
+        return t[0] == 'L' or all(ok(c) for c in t[2])
+    return all(ok(t) for t in doc)
+
+
 def options_expected(doc, po: dict):
     """What Keyvalues.parse(serialise(doc), **po) must return by theorems kv_roundtrip_options / _single_block."""
-    if po['single_block'] and doc:
+    if po.get('single_block') and doc:
         return ('node', doc[0])
     return ('ok', doc)
 
 
 def options_fails(doc, po: dict, sopts: dict) -> str:
-    with warnings.catch_warnings():
-        warnings.simplefilter('ignore')
-        text = build_root(doc).serialise(**sopts)
+    text, err = write_text(build_root(doc), sopts)
+    if text is None:
+        return f'writer-raised:{err}'
     got = impl_parse(text, None, po)
     want = options_expected(doc, po)
     if got == want:
@@ -1157,11 +1324,17 @@ def search(ck: Ck) -> None:
         return False
 
     def report(key, what, doc, opts, extra=None):
-        if key in found:
+        if key in found or UNVERIFIED[0]:       # (nothing is reported on the strength of a call that was not made)
             return
         found[key] = (what, doc, opts, extra)
 
+    HANGS[0] = 0        # the search may see the implementation hang MAX_HANGS times by itself
     for i in range(n):
+        UNVERIFIED[0] = False
+        if HANGS[0] >= MAX_HANGS:
+            ck.notes.append(f'search stopped after {i} trees: the implementation did not return within {IMPL_TIME_LIMIT:.0f} s '
+                            f'{HANGS[0]} times')
+            break
         rng = ck.rng
         doc = SEARCH_CORPUS[i] if i < len(SEARCH_CORPUS) else gen_doc(rng)
         nodes, depth, special = tree_stats(doc)
@@ -1180,23 +1353,31 @@ def search(ck: Ck) -> None:
             mutated = False
             for opts in opt_list:
                 ck.count('search_serialisations')
-                text = root.serialise(**opts)
-                buf = io.StringIO()
-                if root.serialise(buf, **opts) is not None or buf.getvalue() != text:
-                    report('serialise-to-file-differs', 'serialise(file) writes a different text than serialise()', doc, opts)
+                text, werr = write_text(root, opts)
+                if text is not None:
+                    buf = io.StringIO()
+                    try:
+                        to_file = guarded(root.serialise, buf, **opts)
+                    except (ImplTimeout, Exception):       # noqa: BLE001
+                        to_file = 'raised'
+                    if to_file is not None or buf.getvalue() != text:
+                        report('serialise-to-file-differs', 'serialise(file) writes a different text than serialise()', doc, opts)
                 if identity_walk(root) != before or snapshot(root)[2] != doc:
                     report('serialise-mutates-tree', 'the tree differs after serialise()', doc, opts)
                     mutated = True
                     break       # a writer that edits the tree can make every further call more expensive
-                got = impl_parse(text)
-                diff = where_differs(doc, got[1] if got[0] == 'ok' else got)
+                if text is None:
+                    diff = 'writer-raised:' + werr
+                else:
+                    got = impl_parse(text)
+                    diff = where_differs(doc, got[1] if got[0] == 'ok' else got)
                 if diff:
                     if not may_shrink('roundtrip', doc):
                         continue
                     small = shrink_doc(doc, lambda d, o=opts: bool(roundtrip_fails(d, o)))
                     cls = roundtrip_fails(small, opts)
                     report(fail_key('roundtrip', small, cls), f'parse(serialise(t)) != t ({cls})', small, opts,
-                           {'text': impl_serialise(small, opts)})
+                           {'text': None if 'writer-raised' in cls else impl_serialise(small, opts)})
                     continue
                 if ref_text is None:
                     ref_text, ref_tokens, ref_strip = text, tokens_of(text), strip_blanks_outside_quotes(text)
@@ -1209,7 +1390,9 @@ def search(ck: Ck) -> None:
                 continue
             # delivery forms, on one option set per tree
             opts = opt_list[i % len(opt_list)]
-            text = root.serialise(**opts)
+            text, werr = write_text(root, opts)
+            if text is None:
+                continue        # reported above as writer-raised
             base = impl_parse(text)
             deliveries = list(chunkings(rng, text))
             deliveries.append(('StringIO', io.StringIO(text)))
@@ -1228,12 +1411,25 @@ def search(ck: Ck) -> None:
             if doc:
                 kv = build(doc[0])
                 o2 = rng.choice(OPTS_WS)
-                got = impl_parse(kv.serialise(**o2))
+                ntext, nerr = write_text(kv, o2)
+                if ntext is not None:       # serialise(file) on a named node: start_indent matters here
+                    buf = io.StringIO()
+                    try:
+                        to_file = guarded(kv.serialise, buf, **o2)
+                    except (ImplTimeout, Exception):       # noqa: BLE001
+                        to_file = 'raised'
+                    if to_file is not None or buf.getvalue() != ntext:
+                        report('serialise-to-file-differs', 'serialise(file) writes a different text than serialise()', doc[:1], o2,
+                               {'named': True})
+                got = impl_parse(ntext) if ntext is not None else ('err', 97, 'writer failed: ' + nerr)
                 if got != ('ok', [doc[0]]) and may_shrink('roundtrip-named-node', doc):
                     def named_fails(d, o=o2):
                         if len(d) != 1:
                             return ''
-                        g = impl_parse(build(d[0]).serialise(**o))
+                        t_, e_ = write_text(build(d[0]), o)
+                        if t_ is None:
+                            return 'writer-raised:' + e_
+                        g = impl_parse(t_)
                         return where_differs(d, g[1] if g[0] == 'ok' else g)
                     small = shrink_doc(doc[:1], lambda d: bool(named_fails(d)))
                     cls = named_fails(small)
@@ -1259,6 +1455,15 @@ def search(ck: Ck) -> None:
                 cls = options_fails(small, po, so)
                 report('roundtrip-options:' + fail_key('x', small, cls)[2:],
                        f'parse(serialise(t), {po}) is not the tree ({cls})', small, so, {'parse_options': po})
+            # allow_escapes=False: the reader leaves backslashes alone, so only trees none of whose strings is changed by
+            # escape_text can be expected back (KV/KvNoEsc.v: witnesses for the others); those must come back
+            if all_strings_unescaped(doc):
+                ck.count('search_no_escapes_roundtrips')
+                got = impl_parse(text, None, {'allow_escapes': False})
+                if got != ('ok', doc):
+                    report('roundtrip-no-escapes:' + (where_differs(doc, got[1] if got[0] == 'ok' else got) or 'differs'),
+                           'parse(serialise(t), allow_escapes=False) != t for a tree whose strings need no escaping', doc, opts,
+                           {'parse_options': {'allow_escapes': False}})
             # the deprecated writer
             ck.count('search_exports')
             d = roundtrip_fails(doc, {}, 'export')
@@ -1276,6 +1481,65 @@ def search(ck: Ck) -> None:
         ck.violation(key, what, {'doc': doc, 'opts': opts, 'extra': extra,
                                  'how': 'checks.c01.replay: build the tree, serialise with opts, Keyvalues.parse, compare'})
     ck.extra['search_violation_keys'] = sorted(found)
+
+
+# ------------------------------------------------------------------------------------------------ the C03 tokenizer tables
+def tokenizer_tables_translate():
+    """Gen/EscTables_gen.v through C02's translator.  C01 uses it for the constant tables of the *reading* side only (ESCAPES,
+    BARE_DISALLOWED, _OPERATORS, the Token values, the option defaults, casefold: `tables_match` looks at nothing else).  C02's
+    translator also reads escape_text -- the writing side, which C01 reads itself (translate/c01_kvser.py tr_escapes, with its
+    own obligations) -- into a pipeline, and is stricter about its spelling; when it fails closed, it is run again with that
+    one reading left out (an empty pipeline: unused here), so that a harmless respelling of escape_text is not an alarm of C01
+    and a fault in it is reported by C01's own obligations.  Every other reading of that translator stays fail-closed."""
+    from harness.common import TranslateError
+    try:
+        return c02_tables.translate()
+    except TranslateError as first:
+        orig = getattr(c02_tables, '_escape_pipeline', None)
+        if orig is None:
+            raise first
+        c02_tables._escape_pipeline = lambda tree, inv_map: ([], {})
+        try:
+            text, side = c02_tables.translate()
+        finally:
+            c02_tables._escape_pipeline = orig
+        side = dict(side)
+        side['escape_text_pipeline_not_read_by_c02_translator'] = str(first)
+        return text, side
+
+
+# ------------------------------------------------------------------------------------------------ Print Assumptions, in parallel
+def theorems_parallel(rec: Ck, props_file: str, ways: int = 3) -> None:
+    """What Ck.theorems does (one `theorem:<name>` obligation per statement of the Props file, with the output of Print
+    Assumptions), with the statements dealt over `ways` coqc processes: one process needs 20-35 s for the 50 statements on a
+    loaded machine.  The obligations are recorded in the order of the file."""
+    import re as _re
+    from harness.common import ROCQ, _split_assumptions
+    txt = (ROCQ / props_file).read_text()
+    names = _re.findall(r"^\s*(?:Theorem|Lemma|Corollary)\s+([A-Za-z0-9_']+)", txt, _re.M)
+    mod = 'SV.' + props_file[:-2].replace('/', '.')
+    groups = [names[k::ways] for k in range(ways)]
+
+    def one(k: int):
+        body = f'Require Import {mod}.\n' + ''.join(f'Print Assumptions {n}.\n' for n in groups[k])
+        return rec.coq_scratch(body, f'assumptions{k}')
+    try:
+        outs = par_map(one, list(range(ways)), ways)
+    except Exception as e:      # noqa: BLE001   never silently: the theorem obligations would be missing from the evidence
+        rec.obligation(f'assumptions:{props_file}', False, f'Print Assumptions could not be run: {e!r}')
+        rec.tie_broken.append(f'Print Assumptions failed for {props_file}')
+        return
+    got: dict = {}
+    for k, (rc, out) in enumerate(outs):
+        if rc != 0:
+            rec.obligation(f'assumptions:{props_file}', False, out[-2000:])
+            rec.tie_broken.append(f'Print Assumptions failed for {props_file}')
+            return
+        for n, b in zip(groups[k], _split_assumptions(out, len(groups[k]))):
+            got[n] = b
+    for n in names:
+        rec.axioms[n] = got[n]
+        rec.obligation(f'theorem:{n}', True, 'Qed; axioms: ' + ('none (closed under the global context)' if not got[n] else ', '.join(got[n])))
 
 
 # ------------------------------------------------------------------------------------------------ main
@@ -1297,11 +1561,16 @@ def run(ck: Ck) -> None:
     ck.trusted.append('Text/Tokenizer.v (reader-program model of Tokenizer, owned and tied by C03); KV/KvLex.v is proved equal '
                       'to it (kv_lexer_refines_tokenizer) for the regenerated tables')
     ck.trusted.append('translate/c02_tables.py (regenerates Gen/EscTables_gen.v, the tables of the C03 tokenizer model)')
+    ck.trusted.append('translate/c01_kvser.py tr_serialise (symbolic execution of the wrapper serialise(): buffers, write targets, '
+                      'return value) and translate/c01_kvaux.py (symbolic reading of _read_flag, the statement list of _serialise); '
+                      'the meaning of the generated objects is in KV/KvWriter.v, KV/KvFlagProg.v (compared with _read_flag on every '
+                      'run), KV/KvWProg.v')
     ck.assumptions += [
         'trees are finite, acyclic, values are str, only the root is nameless (Keyvalues.root / parse result)',
         'names contain no CR/LF unless parse is called with newline_keys=True; values contain none when '
         'newline_values=False; indent and start_indent consist of spaces and tabs',
-        'allow_escapes=True; _read_flag enters the theorems as an arbitrary predicate',
+        'allow_escapes=True for the theorems (allow_escapes=False: sampled correspondence and refutation witnesses only); '
+        'the round-trip theorems hold for an arbitrary flag predicate, c01_property uses the regenerated _read_flag',
     ]
     stage: dict = {}
     ck.extra['stage_wall_seconds'] = stage       # informative only: never influences a result
@@ -1312,11 +1581,14 @@ def run(ck: Ck) -> None:
     # refinement theorem kv_lexer_refines_tokenizer is instantiated for them.  When that translator fails closed (it is
     # another property's, and stricter about the spelling of escape_text than translate/c01_kvser.py), everything that
     # does not need its tables is still built and evaluated, so that C01's own named obligations point at the site.
-    ok_esc = ck.translate('EscTables_gen', c02_tables.translate)
+    ok_esc = ck.translate('EscTables_gen', tokenizer_tables_translate)
     # the token loop of Keyvalues.parse as a decision tree (symbolic execution of the loop body, path by path)
     ok_t = ck.translate('KVLoop_gen', c01_kvloop.translate) and ok_t
+    # the glue around the anchored functions: the execution paths of the wrapper serialise(), _read_flag as a decision tree,
+    # _serialise as a program of write / child-loop / store instructions
+    ok_t = ck.translate('KVAux_gen', c01_kvaux.translate) and ok_t
     # KV/KvEnum.vo is used by the correspondences only (no theorem depends on it): name it explicitly
-    built = ok_t and ck.build(['Gen/KVSer_gen.vo', 'Gen/KVLoop_gen.vo'] + (['Gen/EscTables_gen.vo', 'Text/TokGen.vo'] if ok_esc else [])
+    built = ok_t and ck.build(['Gen/KVSer_gen.vo', 'Gen/KVLoop_gen.vo', 'Gen/KVAux_gen.vo'] + (['Gen/EscTables_gen.vo', 'Text/TokGen.vo'] if ok_esc else [])
                               + ['KV/KvEnum.vo', 'KV/KvLoopEnum.vo', 'Props/C01.vo'])
     if built:
         # Print Assumptions of the 37 theorems takes a single coqc process 15-20 s on a loaded machine: it runs beside the
@@ -1326,12 +1598,30 @@ def run(ck: Ck) -> None:
         import threading
         rec = Ck(ck.pid, ck.tier, ck.seed)
         at_theorems = len(ck.obligations)
-        th = threading.Thread(target=rec.theorems, args=('Props/C01.v',))
+        th = threading.Thread(target=theorems_parallel, args=(rec, 'Props/C01.v'))
         th.start()
         noraw = '(fun t => forallb (fun p => match p with PRaw _ | POther => false | _ => true end) t)'
         is_push = '(fun s => match s with SOpenLast | SOpenDummy => true | _ => false end)'
         is_pop = '(fun s => match s with SPop => true | _ => false end)'
-        inst = ck.instance_obligations(IMPORTS + [i for i in IMPORTS_LOOP if i not in IMPORTS], {
+        # the obligations that need the C03 tokenizer tables run in a coqc process of their own, beside the main group
+        # (a recorder of its own again; spliced in after the main group, so the order of the evidence is fixed)
+        rec2 = Ck(ck.pid, ck.tier, ck.seed)
+        inst2: dict = {}
+        th2 = None
+        if ok_esc:
+            th2 = threading.Thread(target=lambda: inst2.update(rec2.instance_obligations(
+                IMPORTS_REFINE + ['SV.KV.KvSym', 'SV.KV.KvLoop', 'SV.KV.KvLoopRoundtrip', 'SV.Gen.KVLoop_gen'] + IMPORTS_AUX, {
+            'tokenizer_model_escape_table_equals_kv_lexer_table': 'esc_tables_match gen_tables gen_escfg',
+            'tokenizer_model_BARE_DISALLOWED_equals_kv_lexer_set': 'bare_tables_match gen_tables',
+            'tokenizer_model_operators_are_brace_open_close_equals_comma': 'ops_match (Str.operators gen_tables)',
+            'tables_match(premise of parse_any_delivery)': 'tables_match gen_tables gen_escfg',
+            'all_nine_hypotheses_of_c01_property_hold_of_the_regenerated_objects':
+                'cfg_ok gen_sercfg && esc_ok gen_escfg && pcfg_ok gen_parsecfg && loop_ok gen_ptree gen_pfinal gen_parsecfg && '
+                'tables_match gen_tables gen_escfg && delivery_ok gen_serpaths && flagprog_ok gen_flagprog && '
+                'wprog_pure gen_wprog && wprog_text_ok gen_sercfg gen_wprog',
+          }, name='inst_refine')))
+            th2.start()
+        inst = ck.instance_obligations(IMPORTS + [i for i in IMPORTS_LOOP if i not in IMPORTS] + IMPORTS_AUX, {
             'escape_table_covers_quote': 'esc_quote_ok gen_escfg',
             'escape_table_covers_backslash': 'esc_backslash_ok gen_escfg',
             'escape_table_covers_CR': 'esc_cr_ok gen_escfg',
@@ -1361,6 +1651,22 @@ def run(ck: Ck) -> None:
             'export_child_prefix_is_whitespace': 'xprefix_ok gen_expcfg',
             'root_test_of_export_is_identity_with_None': 'xroot_test_ok gen_expcfg',
             'xcfg_ok(premise of kv_export_roundtrip)': 'xcfg_ok gen_expcfg',
+            # the wrapper serialise() as its execution paths (Gen/KVAux_gen.v gen_serpaths)
+            'serialise_hands_the_writes_of__serialise_to_the_destination_unprocessed_and_returns_them': 'delivery_direct gen_serpaths',
+            'serialise_has_a_path_for_every_way_of_calling(file_or_not,indent_braces)': 'delivery_total gen_serpaths',
+            'delivery_ok(premise of serialise_delivery)': 'delivery_ok gen_serpaths',
+            # the write templates as sequences of writer lines (KV/KvShift.v): cur_indent exactly once, at the start of each
+            'cur_indent_is_written_exactly_at_the_start_of_every_writer_line(indent_braces=True)':
+                'lines_ok gen_sercfg {| o_indent := nil; o_indent_braces := true; o_start := nil |}',
+            'cur_indent_is_written_exactly_at_the_start_of_every_writer_line(indent_braces=False)':
+                'lines_ok gen_sercfg {| o_indent := nil; o_indent_braces := false; o_start := nil |}',
+            # _read_flag as a decision tree (gen_flagprog)
+            'read_flag_with_bang_is_the_negated_lookup_of_the_casefolded_rest': 'flagprog_bang_ok gen_flagprog',
+            'read_flag_without_bang_is_the_lookup_of_the_casefolded_text': 'flagprog_plain_ok gen_flagprog',
+            'flagprog_ok(premise of read_flag_program_is_model)': 'flagprog_ok gen_flagprog',
+            # _serialise as an instruction program (gen_wprog)
+            'writer_program_has_no_store_or_mutating_instruction': 'wprog_pure gen_wprog',
+            'writer_program_writes_are_the_templates_of_the_writer_model': 'wprog_text_ok gen_sercfg gen_wprog',
             'no_store_to_tree_in_writers': 'Nat.eqb (length gen_tree_stores) 0',
             'no_mutating_call_on_tree_in_writers': 'Nat.eqb (length gen_tree_mut_calls) 0',
             # the token loop of parse as a regenerated decision tree (Gen/KVLoop_gen.v) against the reference tree
@@ -1381,13 +1687,16 @@ def run(ck: Ck) -> None:
             f'parse_loop_tree_runs_like_token_loop_model_on_all_token_strings_up_to_length_{ck.budget(3, 4)}':
                 f'tree_agrees_upto gen_ptree gen_pfinal gen_parsecfg {ck.budget(3, 4)}',
         })
-        if ok_esc:
-          inst.update(ck.instance_obligations(IMPORTS_REFINE, {
-            'tokenizer_model_escape_table_equals_kv_lexer_table': 'esc_tables_match gen_tables gen_escfg',
-            'tokenizer_model_BARE_DISALLOWED_equals_kv_lexer_set': 'bare_tables_match gen_tables',
-            'tokenizer_model_operators_are_brace_open_close_equals_comma': 'ops_match (Str.operators gen_tables)',
-            'tables_match(premise of parse_any_delivery)': 'tables_match gen_tables gen_escfg',
-          }, name='inst_refine'))
+        if th2 is not None:
+            th2.join()
+            if not rec2.obligations:        # the thread died: never silently
+                rec2.obligation('instance:inst_refine', False, 'the obligations over the tokenizer tables could not be evaluated')
+                rec2.tie_broken.append('instance obligations inst_refine could not be run')
+            ck.obligations.extend(rec2.obligations)
+            ck.tie_broken.extend(rec2.tie_broken)
+            ck.notes.extend(rec2.notes)
+            inst.update(inst2)
+            shutil.rmtree(rec2.scratch, ignore_errors=True)
         if not all(inst.values()):
             ck.tie_broken.append('instance obligations over Gen/KVSer_gen.v / Gen/KVLoop_gen.v: ' + ', '.join(k for k, v in inst.items() if not v))
         stage['build+theorems+instances'] = round(time.time() - t_stage, 1)
@@ -1395,13 +1704,22 @@ def run(ck: Ck) -> None:
         tie_tables(ck, side)
         # the correspondences: cases are generated sequentially (ck.rng), the model is evaluated on all chunks in
         # parallel coqc processes, results are consumed in order
+        t_sub = time.time()
         pending = [corr_serialise(ck), corr_parse(ck), corr_read_flag(ck, bool(side.get('read_flag_shape_recognised')))]
+        stage['  of which: generating the correspondence cases (implementation runs)'] = round(time.time() - t_sub, 1)
+        t_sub = time.time()
         results = eval_jobs(ck, [j for jobs, _ in pending for j in jobs])
+        stage['  of which: model evaluation (parallel coqc)'] = round(time.time() - t_sub, 1)
+        t_sub = time.time()
         at = 0
         for jobs, fin in pending:
             fin(results[at:at + len(jobs)])
             at += len(jobs)
         th.join()
+        if not rec.obligations:             # the thread died: never silently
+            rec.obligation('assumptions:Props/C01.v', False, 'Print Assumptions could not be run')
+            rec.tie_broken.append('Print Assumptions failed for Props/C01.v')
+        stage['  of which: waiting for Print Assumptions'] = round(time.time() - t_sub, 1)
         ck.obligations[at_theorems:at_theorems] = rec.obligations
         ck.axioms.update(rec.axioms)
         ck.tie_broken.extend(rec.tie_broken)
@@ -1429,16 +1747,25 @@ def run(ck: Ck) -> None:
         for pre in ('instance:block_head_lexes', 'instance:block_tail_lexes', 'instance:leaf_lexes',
                     'instance:child_indent', 'instance:root_child_indent', 'instance:cfg_ok_and_esc_ok',
                     'instance:escape_table', 'instance:every_escape_written', 'instance:escape_fast_path',
-                    'instance:root_test_of_serialise',
+                    'instance:root_test_of_serialise', 'instance:serialise_hands_the_writes', 'instance:serialise_has_a_path',
+                    'instance:delivery_ok', 'instance:all_nine_hypotheses', 'instance:writer_program_writes_are',
+                    'instance:cur_indent_is_written_exactly',
                     'instance:parse_newline_key_test', 'instance:parse_newline_value_test',
                     'instance:parse_loop_', 'instance:parse_checks_after', 'instance:parse_emptiness', 'instance:loop_ok'):
             ck.explain(pre)
     if any(k.startswith('export-roundtrip') for k in keys):
         for pre in ('instance:export_', 'instance:root_test_of_export', 'instance:xcfg_ok'):
             ck.explain(pre)
+    if 'serialise-to-file-differs' in keys:
+        for pre in ('instance:serialise_hands_the_writes', 'instance:serialise_has_a_path', 'instance:delivery_ok',
+                    'instance:all_nine_hypotheses'):
+            ck.explain(pre)
     if 'serialise-mutates-tree' in keys or 'export-mutates-tree' in keys:
         ck.explain('instance:no_store_to_tree')
         ck.explain('instance:no_mutating_call')
+        ck.explain('instance:writer_program_has_no_store')
+        ck.explain('instance:writer_program_writes_are')
+        ck.explain('instance:all_nine_hypotheses')
 
 
 def replay(data: dict) -> int:
@@ -1452,17 +1779,25 @@ def replay(data: dict) -> int:
     doc = [tup(t) for t in r['doc']]
     opts = r.get('opts') or {}
     extra = r.get('extra') or {}
-    with warnings.catch_warnings():
-        warnings.simplefilter('ignore')
-        if extra.get('writer') == 'export':
-            text = ''.join(build_root(doc).export())
-        elif extra.get('named'):
-            text = build(doc[0]).serialise(**opts)
-        else:
-            text = build_root(doc).serialise(**opts)
+    text, werr = write_text(build(doc[0]) if extra.get('named') else build_root(doc), opts,
+                            'export' if extra.get('writer') == 'export' else 'serialise')
     print('tree      :', doc)
     print('options   :', opts)
+    if text is None:
+        print('writer    :', 'did not return within %.0f s' % IMPL_TIME_LIMIT if werr == 'hang' else 'raised ' + werr)
+        print('round trip: DIFFERS')
+        return 0
     print('text      :', repr(text))
+    if extra.get('writer') != 'export':
+        buf = io.StringIO()
+        try:
+            with warnings.catch_warnings():
+                warnings.simplefilter('ignore')
+                ret = guarded((build(doc[0]) if extra.get('named') else build_root(doc)).serialise, buf, **opts)
+            print('to a file :', 'same text, returns None' if ret is None and buf.getvalue() == text
+                  else f'DIFFERS: returns {ret!r}, writes {buf.getvalue()!r}')
+        except (ImplTimeout, Exception) as e:       # noqa: BLE001
+            print('to a file :', 'DIFFERS:', type(e).__name__)
     po = extra.get('parse_options')
     got = impl_parse(text, None, po)
     print('parse opts:', po or 'defaults')
